@@ -150,6 +150,24 @@ CLAIMED = {
              'cyclic objects are outside the model. All theorems closed under the global context.',
         technique='Coq proof by induction on objects (inferred hint is satisfied at full depth) over a translator-regenerated classification table + shared-core soundness + differential correspondence with read-back of real inferred hints',
         design='5/C20'),
+    'C19': dict(
+        text='Machine-checked (Coq 8.16.1) over an executable model of TypeHint.is_subhint / == with its three '
+             'outcomes (True, False, BeartypeDoorIsSubhintException), at every recursion fuel: is_subhint(h, h) and '
+             'TypeHint(h) == TypeHint(h) never answer False, for every hint of the grammar (classes, Any, unions, '
+             'literals, Annotated, fixed/variadic tuples, containers, mappings, Counter, type[...]); transitivity '
+             'proved on classes and unions of classes (partial) and machine-refuted through Any (F13); soundness '
+             'w.r.t. the full-depth meaning proved on Any-free hints built from classes, unions, containers, '
+             'mappings and tuples, and machine-refuted for Annotated (F12); the raising outcome is shown '
+             'reachable on h vs h (F25). On every run beartype.door.is_subhint is compared with the model on all '
+             'nine ordered pairs of generated triples (related by widening), the order laws and soundness are '
+             'tested against is_bearable and a Python full-depth judgement, and TypeHint wrapper coherence (identity '
+             'for hashable hints, == / hash, len / iter / getitem / contains / args) is checked on the implementation.',
+        note='Trusted: Coq kernel; the hand-written model Core/Door.v (tied by correspondence only); validator '
+             'metadata equality is modelled for interned validators; callables, NewTypes, TypeVars, generics are '
+             'outside the model; full-grammar transitivity and wrapper coherence are decided by differential '
+             'execution, not proved. All theorems closed under the global context.',
+        technique='Coq proofs about an executable three-valued model of is_subhint (induction on hints / fuel) + refutation witnesses by vm_compute + differential correspondence on pairs and triples',
+        design='5/C19'),
     'C04': dict(
         text='Machine-checked (Coq 8.16.1): for every signature over the five parameter kinds with pairwise '
              'distinct names and every call that CPython\'s binding rule accepts, the values selected by the '
